@@ -34,17 +34,8 @@ ASSUME = ['PARTIAL and BOUNDED: the bindings the real C generator produces for O
 
 
 def build_cli(rep):
-    env = offline_env({'CARGO_TARGET_DIR': os.path.join(BUILD, 'cli-target-c')})
-    cmd = ['cargo', 'build', '--offline', '--no-default-features', '--features', 'c', '--bin', 'wit-bindgen']
-    exe = os.path.join(BUILD, 'cli-target-c/debug/wit-bindgen')
-    if os.path.exists(exe):
-        os.remove(exe)
-    rep.checker_cmds.append('(cd %s && CARGO_TARGET_DIR=%s %s)' % (REPO, env['CARGO_TARGET_DIR'], ' '.join(cmd)))
-    with target_lock('cli-target-c'):
-        rc, out, err, secs, to = sh(cmd, cwd=REPO, env=env, timeout=3600)
-    if rc != 0:
-        raise Undecided('the wit-bindgen CLI (C backend) does not build from %s: %s' % (REPO, err[-1200:]))
-    return exe
+    from . import rustgen
+    return rustgen.build_cli(rep)   # the same CLI binary (features rust,c) serves the Rust and the C probes
 
 
 def generate(rep):
